@@ -8,7 +8,6 @@ import (
 	"os"
 	"os/exec"
 	"runtime/pprof"
-	"sort"
 	"strings"
 	"syscall"
 
@@ -134,33 +133,26 @@ func main() {
 		SchedHash: fmt.Sprintf("%016x", o.SchedHash), TapeLen: len(o.Tape), Probes: o.Probes, Faults: o.Faults,
 		TasksEnd: o.TasksAtEnd, MaxTasks: o.MaxTasks}
 	if o.Status == simrt.StatusLivelock {
-		// name the loop by the source positions it cycles through
-		ids := append([]int64(nil), o.SoloSites...)
-		sort.Slice(ids, func(i, j int) bool { return ids[i] < ids[j] })
-		for _, id := range ids {
-			st := scen.Sites[int(id)]
-			if st.Func == "" {
-				continue
-			}
-			if rep.HangAt == "" {
-				rep.HangAt = st.Func
-			}
-			rep.Deadlock += fmt.Sprintf("\n  site %d: %s %s in %s", id, st.Kind, st.Pos, st.Func)
-		}
-	}
-	if o.Status == simrt.StatusLivelock && rep.HangAt == "" {
-		for _, l := range strings.Split(o.PanicText, "\n") {
-			l = strings.TrimSpace(l)
-			if strings.HasPrefix(l, "github.com/irai/packet") {
-				rep.HangAt = l
-				if i := strings.LastIndex(l, "("); i > 0 {
-					rep.HangAt = l[:i]
+		// name the loop by the busiest library task: the function of its last synchronisation
+		// site, else the function that started it
+		for i, h := range o.HotTasks {
+			last, gosite := scen.Sites[int(h.LastSite)], scen.Sites[int(h.GoSite)]
+			rep.Deadlock += fmt.Sprintf("\n  task %d kind=%d steps=%d last site: %s %s in %s; started in %s", h.ID, h.Kind, h.Steps, last.Kind, last.Pos, last.Func, gosite.Func)
+			if i == 0 { // the busiest task names the loop
+				if h.ID == o.DumpTask {
+					rep.HangAt = innermostLibraryFrame(o.PanicText)
 				}
-				break
+				if rep.HangAt != "" {
+				} else if last.Func != "" {
+					rep.HangAt = last.Func
+				} else if h.Kind == 0 && gosite.Func != "" {
+					rep.HangAt = gosite.Func
+				}
 			}
 		}
-	}
-	if o.Status == simrt.StatusLivelock {
+		if rep.HangAt == "" {
+			rep.HangAt = innermostLibraryFrame(o.PanicText)
+		}
 		rep.Deadlock += "\n" + o.PanicText
 		rep.PanicText = ""
 	}
@@ -188,6 +180,22 @@ func main() {
 	os.Exit(0)
 }
 
+// innermostLibraryFrame names a stack by its outermost library function (the API entry point or
+// the goroutine's top function): the innermost one varies from run to run within one loop.
+func innermostLibraryFrame(stack string) string {
+	fn := ""
+	for _, l := range strings.Split(stack, "\n") {
+		l = strings.TrimSpace(l)
+		if strings.HasPrefix(l, "github.com/irai/packet") {
+			fn = l
+			if i := strings.LastIndex(l, "("); i > 0 {
+				fn = l[:i]
+			}
+		}
+	}
+	return fn
+}
+
 // spinning picks, from a dump of all goroutines, the one that is burning CPU inside the library
 // and returns its innermost library function and its stack.
 func spinning(dump string) (fn, stack string) {
@@ -202,16 +210,7 @@ func spinning(dump string) (fn, stack string) {
 		if strings.Contains(g, "simrt.spinWatch") || !strings.Contains(g, "github.com/irai/packet") {
 			continue
 		}
-		for _, l := range strings.Split(g, "\n") {
-			l = strings.TrimSpace(l)
-			if strings.HasPrefix(l, "github.com/irai/packet") {
-				fn = l
-				if i := strings.LastIndex(l, "("); i > 0 {
-					fn = l[:i]
-				}
-				break
-			}
-		}
+		fn = innermostLibraryFrame(g)
 		if len(g) > 6000 {
 			g = g[:6000]
 		}
